@@ -424,7 +424,7 @@ class Worker:
             if not self._running:
                 return None
 
-            if addr in self._cancelled_task_ids or addr not in self._tasks:
+            if addr not in self._tasks:
                 # When a task is cancelled on the worker it is not removed
                 # from the ready queue because it is much cheaper to just
                 # discard cancelled tasks as they come out.
@@ -432,12 +432,22 @@ class Worker:
 
             task = self._tasks[addr]
 
-            if any(bcb in self._cancelled_task_ids for bcb in task.breadcrumbs):
-                # If any of the selected tasks ancestor tasks are cancelled
-                # then discard this one too. Each breadcrumb (bcb) is a
-                # task address (unique system-wide task id) of an ancestor
-                # task.
-                # TODO: do I need to manually remove addr from self._tasks?
+            if (
+                addr in self._cancelled_task_ids
+                or any(
+                    bcb in self._cancelled_task_ids
+                    for bcb in task.breadcrumbs
+                )
+            ):
+                # If the selected task or any of its ancestor tasks are
+                # cancelled then discard this one too. Each breadcrumb (bcb)
+                # is a task address (unique system-wide task id) of an
+                # ancestor task. The task arrived after the cancel message
+                # was handled, so it still needs to be removed here.
+                task.cancel()
+                for mailbox_id in task.owned_mailboxes:
+                    self._mailboxes.pop(mailbox_id, None)
+                self._tasks.pop(addr, None)
                 continue
 
             return task
